@@ -3,12 +3,15 @@ Lean: Props/C01.lean — (a) oracle = legality predicate, soundness of the accep
 (b) theorems about the ALGORITHMS of moveGen.cpp, modelled in Chess/TexelGen*.lean on bitboards: sqAttacked / inCheck =
 spec, sliding attacks depend on the inner mask only (table comparison lifted to all occupancies), isLegal (all five
 paths) and removeIllegal = "king not attacked after the move", pseudoLegalMoves = movement rules without duplicates,
-pseudoLegalMoves + removeIllegal is a permutation of the legal moves.
+pseudoLegalMoves + removeIllegal is a permutation of the legal moves; givesCheck = "the opponent is in check after the
+move" for every pseudo-legal move that does not put the kings next to each other (hence every legal move): direct,
+discovered, promotion through the vacated square, castling rook, both en-passant lines; pseudoLegalCapturesAndChecks =
+exactly the pseudo-legal moves described by its masks (CCGen) and omits no capture, promotion (Q/N) or checking move.
 Tie: for every generated position (1) the real MoveGen's six lists and per-move verdicts are dumped by the harness and
 judged by the proven acceptor in the compiled Lean driver; (2) the same dump IN GENERATION ORDER (in-check flag,
 pseudo-legal list, isLegal and givesCheck per move, list after removeIllegal, evasions, captures, captures-and-checks) is
 compared line by line with the Lean model of the algorithms, after the driver has checked the hypotheses of the
-theorems (GenWF) on that position; FEN accept/reject + canonical FEN compared; sliding attack tables compared with the
+theorems (GenWF, kings not adjacent, GcWF: opponent's king unique and not attacked, e.p. square sane) on that position; FEN accept/reject + canonical FEN compared; sliding attack tables compared with the
 spec's AND the model's ray walk for the subsets of the implementation's own relevant-occupancy masks (compared with
 the model's inner masks), king/knight/pawn tables, squares-between and direction tables exhaustively; perft."""
 import os
@@ -60,6 +63,77 @@ def table_lines(ctx, quick):
             lines.append(f"chess dir {a} {b}")
             lines.append(f"chess between {a} {b}")
     return lines
+
+
+def gives_check_motifs(rng, n):
+    """positions aimed at the blocks of MoveGen::givesCheck / the masks of pseudoLegalCapturesAndChecks that random
+    games rarely reach: castling where the rook gives check (king on the rook's file, or on the back rank behind the
+    king's home square) or just misses (neighbouring file), promotions whose new piece attacks through the vacated
+    square, pieces standing between an own slider and the enemy king (discovered checks; moves along the line)"""
+    out = []
+    for _ in range(n):
+        b = [None] * 64
+        white = rng.random() < 0.5
+        r = rng.random()
+        def put(s, pc):
+            if 0 <= s < 64 and b[s] is None: b[s] = pc if white else pc.swapcase()
+        row = 0 if white else 7
+        up = 1 if white else -1
+        if r < 0.4:                                   # castling with / almost with check
+            put(row * 8 + 4, "K")
+            short = rng.random() < 0.5
+            if rng.random() < 0.9: put(row * 8 + (7 if short else 0), "R")
+            if rng.random() < 0.5: put(row * 8 + (0 if short else 7), "R")
+            m = rng.random()
+            if m < 0.6:                                # enemy king on / next to the rook's file
+                fx = (5 if short else 3) + rng.choice([0, 0, 0, 1, -1])
+                fy = row + up * rng.randrange(2, 8)
+                put(fy * 8 + fx, "k")
+            else:                                      # enemy king on the back rank on the other side
+                xs = [0, 1, 2] if short else [6, 7]
+                put(row * 8 + rng.choice(xs), "k")
+            for _ in range(rng.randrange(0, 4)):       # blockers / bystanders
+                put(rng.randrange(64), rng.choice("NBPnbpQq"))
+            castle = ("KQ" if white else "kq") if rng.random() < 0.8 else ("K" if white else "k")
+        elif r < 0.7:                                  # promotion, king behind the pawn on the file or a diagonal
+            x = rng.randrange(8)
+            y7 = 6 if white else 1
+            put(y7 * 8 + x, "P")
+            dx = rng.choice([0, 0, 1, -1])             # direction from the king towards the pawn (file or diagonal)
+            k = rng.randrange(1, 7)
+            kx, ky = x - dx * k, y7 - up * k
+            if 0 <= kx < 8 and 0 <= ky < 8: put(ky * 8 + kx, "k")
+            if dx != 0 and 0 <= x + dx < 8: put((y7 + up) * 8 + x + dx, rng.choice("rnbq"))    # something to capture on the line
+            if rng.random() < 0.5 and 0 <= x - 1: put((y7 + up) * 8 + x - 1, rng.choice("rnbq"))
+            for _ in range(rng.randrange(0, 3)): put(rng.randrange(64), rng.choice("NBnbRr"))
+            castle = "-"
+        else:                                          # a piece between an own slider and the enemy king
+            kx, ky = rng.randrange(8), rng.randrange(8)
+            put(ky * 8 + kx, "k")
+            dx, dy = rng.choice([(1, 0), (-1, 0), (0, 1), (0, -1), (1, 1), (1, -1), (-1, 1), (-1, -1)])
+            line = []
+            x, y = kx + dx, ky + dy
+            while 0 <= x < 8 and 0 <= y < 8:
+                line.append(y * 8 + x); x += dx; y += dy
+            if len(line) >= 2:
+                i = rng.randrange(0, len(line) - 1); j = rng.randrange(i + 1, len(line))
+                mid = rng.choice("QRBNPK")
+                if mid == "P" and not (8 <= line[i] < 56): mid = "N"
+                put(line[i], mid)
+                put(line[j], rng.choice("QR" if dx == 0 or dy == 0 else "QB"))
+                if rng.random() < 0.3 and j + 1 < len(line): put(line[j + 1], rng.choice("QRB"))
+            for _ in range(rng.randrange(0, 4)): put(rng.randrange(64), rng.choice("NBnbPp"))
+            castle = "-"
+        for kk in ("K", "k"):                          # make sure both kings exist
+            if kk not in b:
+                for _ in range(50):
+                    s = rng.randrange(64)
+                    if b[s] is None:
+                        b[s] = kk; break
+        for s in list(range(0, 8)) + list(range(56, 64)):
+            if b[s] in ("P", "p"): b[s] = None
+        out.append(chessgen.board_to_fen(b, white, castle, "-", 0, 20))
+    return out
 
 
 def driver_parallel(lines):
@@ -120,7 +194,7 @@ def run(ctx):
                           {"kind": "table", "input": [l], "impl": out1[i]})
     # 2. positions
     ngames, plies, nsyn = (300, 160, 20000) if quick else (4000, 220, 200000)
-    fens = chessgen.games(ctx, ngames, plies) + chessgen.synthetic(ctx.rng, nsyn)
+    fens = chessgen.games(ctx, ngames, plies) + chessgen.synthetic(ctx.rng, nsyn) + gives_check_motifs(ctx.rng, nsyn // 5)
     fens = list(dict.fromkeys(fens))
     fl = [f"chess fen {f}" for f in fens]
     o1, o2, mis = vlib.diff_lines(ctx, "fen-reader", fl)
@@ -185,9 +259,9 @@ def run(ctx):
     if mis is not None:
         ctx.violation(f"perft differs on `{roots[mis]}`: impl {a[mis]} spec {b[mis]}", {"kind": "property-predicate", "input": [roots[mis]], "impl": a[mis], "spec": b[mis]})
     ctx.cov["rule"] = ("positions = all positions of random legal games from the initial and seeded start positions (real generator used only to produce inputs) + synthetic placements "
-                       "(random sparse/dense with promotion-consistent counts, pins, en-passant pins on rank/diagonal, castling through/into attacked squares, promotions with capture, checks and double checks); "
+                       "(random sparse/dense with promotion-consistent counts, pins, en-passant pins on rank/diagonal, castling through/into attacked squares, promotions with capture, checks and double checks; castling with the rook giving or just missing check, promotions attacking through the vacated square, pieces between an own slider and the enemy king); "
                        "distinct = distinct board+side+castling+ep; every position: FEN accept/reject and canonical FEN compared with the model, MoveGen dump judged by the acceptor; "
                        "tables: rook/bishop attacks for subsets of the inner mask (all 107 648 in thorough) + random full occupancies, each against the spec's and the generator model's ray walk, the masks themselves, king/knight/pawn attacks, 64x64 direction and squares-between; "
-                       "every accepted position additionally: hypotheses GenWF of the generator theorems evaluated, ordered dump of the real MoveGen == Lean model of its algorithms")
+                       "every accepted position additionally: hypotheses GenWF / kingsApart / GcWF of the generator, evasion, givesCheck and captures-and-checks theorems evaluated (a failing hypothesis is a disagreement), ordered dump of the real MoveGen == Lean model of its algorithms")
     if not quick:
         vlib.leanchecker(ctx, ["TexelVerif.Props.C01"])
